@@ -95,6 +95,9 @@ class TokenTree:
         if len(token.previous_token_hash) != hash_length or len(token.content_hash) != hash_length:
             # Not a pair of SHA3-256 pointers: the signed bytes of a Token can be cut into other pointers.
             return None
+        if len(token.signature) != self.public_key.get_signature_length():
+            # Not the encoding our keys produce: some keys also accept re-encoded copies of a signature.
+            return None
         if token.verify(self.public_key):
             if token.previous_token_hash != self.genesis_hash and token.previous_token_hash not in self.elements:
                 self.unchained[token] = None
@@ -132,7 +135,9 @@ class TokenTree:
         current = token
         steps = 0
         while maxdepth == -1 or maxdepth > steps:
-            if len(current.content_hash) != len(self.genesis_hash) or not current.verify(self.public_key):
+            if (len(current.content_hash) != len(self.genesis_hash)
+                    or len(current.signature) != self.public_key.get_signature_length()
+                    or not current.verify(self.public_key)):
                 return False
             if current.previous_token_hash == self.genesis_hash:
                 break
@@ -154,7 +159,9 @@ class TokenTree:
         steps = 0
         path = [token]
         while maxdepth == -1 or maxdepth > steps:
-            if len(current.content_hash) != len(self.genesis_hash) or not current.verify(self.public_key):
+            if (len(current.content_hash) != len(self.genesis_hash)
+                    or len(current.signature) != self.public_key.get_signature_length()
+                    or not current.verify(self.public_key)):
                 return []
             if current.previous_token_hash == self.genesis_hash:
                 break
